@@ -104,8 +104,8 @@ type Sim struct {
 	actors []*Actor
 	// SiteHits counts how often each yield site was passed (guarded by mu).
 	SiteHits map[string]int
-	goids  map[uint64]string
-	Yield  *YieldCtl
+	goids    map[uint64]string
+	Yield    *YieldCtl
 }
 
 func NewSim(tape *Tape, solo bool) *Sim {
@@ -299,9 +299,10 @@ type OutPkt struct {
 // Delivery is one copy of a datagram to be delivered after Delay.
 type Delivery struct {
 	Delay time.Duration
-	Data  []byte // nil = the original bytes
-	From  string // "" = the real source
-	To    string // "" = the original destination
+	AtAbs time.Duration // if non-zero: absolute delivery instant (FIFO links)
+	Data  []byte        // nil = the original bytes
+	From  string        // "" = the real source
+	To    string        // "" = the original destination
 }
 
 func (s *Sim) emit(p *OutPkt) {
@@ -381,6 +382,10 @@ func (s *Sim) scheduleDelivery(p *OutPkt, d Delivery) {
 		delay = time.Microsecond
 	}
 	label := fmt.Sprintf("%s>%s#%d", p.Src.addrStr, p.Dst, p.Idx)
+	if d.AtAbs > 0 {
+		s.At(d.AtAbs, "deliver>"+to, func() { net.Deliver(to, from, data, label) })
+		return
+	}
 	s.After(delay, "deliver>"+to, func() { net.Deliver(to, from, data, label) })
 }
 
